@@ -18,10 +18,13 @@ structure NoOrphan (s : State) : Prop where
   nf_svc : ∀ v ∈ s.svcs, NF v.node
   nf_chk : ∀ c ∈ s.chks, NF c.node
   nf_node : ∀ n ∈ s.nodes, NF n.name
+  /-- nodes and services are strictly sorted by primary key (one row per key) -/
+  srt_nodes : SortedBy Node.pk s.nodes
+  srt_svcs : SortedBy Svc.pk s.svcs
 
 theorem NoOrphan.empty : NoOrphan State.empty :=
   ⟨by simp [State.empty], by simp [State.empty], by simp [State.empty], by simp [State.empty],
-   by simp [State.empty], by simp [State.empty], by simp [State.empty]⟩
+   by simp [State.empty], by simp [State.empty], by simp [State.empty], sortedBy_nil _, sortedBy_nil _⟩
 
 theorem nodeFind_congr {s s' : State} (h : s'.nodes = s.nodes) (n : String) : nodeFind s' n = nodeFind s n := by
   unfold nodeFind; rw [h]
@@ -31,7 +34,7 @@ theorem svcFind_congr {s s' : State} (h : s'.svcs = s.svcs) (n i : String) : svc
 
 theorem NoOrphan.of_view {s s' : State} (h : catView s' = catView s) (hs : NoOrphan s) : NoOrphan s' := by
   have e1 := catView_nodes h; have e2 := catView_svcs h; have e3 := catView_chks h; have e4 := catView_sessions h
-  refine ⟨?_, ?_, ?_, ?_, ?_, ?_, ?_⟩
+  refine ⟨?_, ?_, ?_, ?_, ?_, ?_, ?_, e1 ▸ hs.srt_nodes, e2 ▸ hs.srt_svcs⟩
   · intro v hv; rw [nodeFind_congr e1]; exact hs.svc_node v (e2 ▸ hv)
   · intro c hc; rw [nodeFind_congr e1]; exact hs.chk_node c (e3 ▸ hc)
   · intro c hc hne; rw [svcFind_congr e2]; exact hs.chk_svc c (e3 ▸ hc) hne
@@ -41,7 +44,7 @@ theorem NoOrphan.of_view {s s' : State} (h : catView s' = catView s) (hs : NoOrp
   · intro n hn; exact hs.nf_node n (e1 ▸ hn)
 
 theorem NoOrphan.of_casRel {s s' : State} (h : CasRel s s') (hs : NoOrphan s) : NoOrphan s' := by
-  refine ⟨?_, ?_, ?_, ?_, ?_, ?_, fun n hn => hs.nf_node n (h.nodes ▸ hn)⟩
+  refine ⟨?_, ?_, ?_, ?_, ?_, ?_, fun n hn => hs.nf_node n (h.nodes ▸ hn), h.nodes ▸ hs.srt_nodes, h.svcs ▸ hs.srt_svcs⟩
   · intro v hv; rw [nodeFind_congr h.nodes]; exact hs.svc_node v (h.svcs ▸ hv)
   · intro c hc
     obtain ⟨c0, h0, hsame⟩ := h.chks c hc
@@ -58,7 +61,7 @@ theorem NoOrphan.of_casRel {s s' : State} (h : CasRel s s') (hs : NoOrphan s) : 
 
 theorem NoOrphan.of_ensSpec {s s' : State} {hc : Chk} (h : EnsSpec s hc s') (hnf : NF hc.node) (hs : NoOrphan s) :
     NoOrphan s' := by
-  refine ⟨?_, ?_, ?_, ?_, ?_, ?_, fun n hn => hs.nf_node n (h.nodes ▸ hn)⟩
+  refine ⟨?_, ?_, ?_, ?_, ?_, ?_, fun n hn => hs.nf_node n (h.nodes ▸ hn), h.nodes ▸ hs.srt_nodes, h.svcs ▸ hs.srt_svcs⟩
   · intro v hv; rw [nodeFind_congr h.nodes]; exact hs.svc_node v (h.svcs ▸ hv)
   · intro c hcm
     rw [nodeFind_congr h.nodes]
@@ -201,7 +204,8 @@ theorem svcFind_terase_of_ne {s : State} {node id n i : String} (h : pk2 n i ≠
 theorem noOrphan_deleteService {s s' : State} {idx : Nat} {node id : String}
     (hr : deleteService s idx node id = .ok s') (hnf : NF node) (hs : NoOrphan s) : NoOrphan s' := by
   obtain ⟨a1, a2, a3, a4⟩ := deleteService_spec hr
-  refine ⟨?_, ?_, ?_, ?_, ?_, ?_, fun n hn => hs.nf_node n (a1 ▸ hn)⟩
+  refine ⟨?_, ?_, ?_, ?_, ?_, ?_, fun n hn => hs.nf_node n (a1 ▸ hn), a1 ▸ hs.srt_nodes,
+    by rw [a2]; exact sortedBy_terase _ _ hs.srt_svcs⟩
   · intro v hv
     rw [a2] at hv
     rw [nodeFind_congr a1]; exact hs.svc_node v (mem_terase.mp hv).1
@@ -240,21 +244,22 @@ theorem foldE_deleteService_spec {idx : Nat} {node : String} : ∀ (l : List Svc
     s'.nodes = s.nodes ∧ (∀ x ∈ s'.sessions, x ∈ s.sessions) ∧
     (∀ v' ∈ s'.svcs, v' ∈ s.svcs ∧ ∀ w ∈ l, v'.pk ≠ pk2 node w.id) ∧
     (∀ v ∈ s.svcs, (∀ w ∈ l, v.pk ≠ pk2 node w.id) → v ∈ s'.svcs) ∧
-    (∀ c' ∈ s'.chks, ∃ c ∈ s.chks, ChkSame c' c) := by
+    (∀ c' ∈ s'.chks, ∃ c ∈ s.chks, ChkSame c' c) ∧ s'.svcs.Sublist s.svcs := by
   intro l
   induction l with
   | nil =>
     intro s s' h
     simp [foldE] at h; subst h
-    exact ⟨rfl, fun _ h => h, fun v hv => ⟨hv, by simp⟩, fun v hv _ => hv, fun c hc => ⟨c, hc, ChkSame.rfl' c⟩⟩
+    exact ⟨rfl, fun _ h => h, fun v hv => ⟨hv, by simp⟩, fun v hv _ => hv, fun c hc => ⟨c, hc, ChkSame.rfl' c⟩,
+      List.Sublist.refl _⟩
   | cons b bs ih =>
     intro s s' h
     simp only [foldE] at h
     split at h
     · next s1 h1 =>
       obtain ⟨a1, a2, a3, a4⟩ := deleteService_spec h1
-      obtain ⟨b1, b2, b3, b4, b5⟩ := ih s1 s' h
-      refine ⟨b1.trans a1, fun x hx => a3 x (b2 x hx), ?_, ?_, ?_⟩
+      obtain ⟨b1, b2, b3, b4, b5, b6⟩ := ih s1 s' h
+      refine ⟨b1.trans a1, fun x hx => a3 x (b2 x hx), ?_, ?_, ?_, b6.trans (by rw [a2]; exact terase_sublist _ _ _)⟩
       · intro v' hv'
         obtain ⟨m1, m2⟩ := b3 v' hv'
         rw [a2] at m1
@@ -338,6 +343,7 @@ theorem foldE_deleteSession_gone {idx : Nat} : ∀ (l : List String) (s s' : Sta
 structure DelNodeSpec (s : State) (name : String) (s' : State) : Prop where
   nodes : s'.nodes = terase Node.pk (lc name) s.nodes
   svcs : ∀ v' ∈ s'.svcs, v' ∈ s.svcs ∧ lc v'.node ≠ lc name
+  svcs_sub : s'.svcs.Sublist s.svcs
   svcs_keep : NF name → ∀ v ∈ s.svcs, NF v.node → lc v.node ≠ lc name → v ∈ s'.svcs
   chks : ∀ c' ∈ s'.chks, ∃ c ∈ s.chks, ChkSame c' c ∧ lc c.node ≠ lc name
   sess : ∀ x ∈ s'.sessions, x ∈ s.sessions ∧ lc x.node ≠ lc name
@@ -364,7 +370,7 @@ theorem deleteNode_spec {s s' : State} {idx : Nat} {name : String} (hr : deleteN
             (List.filter (fun v => lc v.node == lc name) s.svcs) = s1 at hf2 hv1
         simp only [catView, Prod.mk.injEq] at hv1
         obtain ⟨v1, v2, v3, v4⟩ := hv1
-        obtain ⟨a1, a2, a3, a4, a5⟩ := foldE_deleteService_spec _ _ _ hf2
+        obtain ⟨a1, a2, a3, a4, a5, a6⟩ := foldE_deleteService_spec _ _ _ hf2
         obtain ⟨b1, b2, b3, b4⟩ := foldE_deleteCheck_spec _ _ _ hf3
         have hp := catView_deleteNodePost s3 idx name
         generalize deleteNodePost s3 idx name = s5 at hr hp
@@ -372,7 +378,7 @@ theorem deleteNode_spec {s s' : State} {idx : Nat} {name : String} (hr : deleteN
         obtain ⟨p1, p2, p3, p4⟩ := hp
         have hrel := foldE_deleteSession_rel _ _ _ hr
         have hgone := foldE_deleteSession_gone _ _ _ hr
-        refine ⟨?_, ?_, ?_, ?_, ?_⟩
+        refine ⟨?_, ?_, by rw [hrel.svcs, p2, b2]; exact v2 ▸ a6, ?_, ?_, ?_⟩
         · rw [hrel.nodes, p1, b1, a1, v1]
         · intro v' hv'
           rw [hrel.svcs, p2, b2] at hv'
@@ -426,7 +432,8 @@ theorem noOrphan_of_delNodeSpec {s s' : State} {name : String} (h : DelNodeSpec 
     unfold nodeFind
     rw [h.nodes]
     exact tfind_terase_ne _ _ _ hn
-  refine ⟨?_, ?_, ?_, ?_, ?_, ?_, fun n hn => hs.nf_node n (by rw [h.nodes] at hn; exact (mem_terase.mp hn).1)⟩
+  refine ⟨?_, ?_, ?_, ?_, ?_, ?_, fun n hn => hs.nf_node n (by rw [h.nodes] at hn; exact (mem_terase.mp hn).1),
+    by rw [h.nodes]; exact sortedBy_terase _ _ hs.srt_nodes, sortedBy_sublist h.svcs_sub hs.srt_svcs⟩
   · intro v hv
     obtain ⟨m1, m2⟩ := h.svcs v hv
     rw [nf _ m2]; exact hs.svc_node v m1
@@ -486,7 +493,7 @@ theorem noOrphan_nodeInsert {s : State} (n : Node) (hnf : NF n.name) (hs : NoOrp
     intro m hm
     unfold nodeFind at hm ⊢
     rw [e1]; exact tfind_tupsert_mono _ _ _ hm
-  refine ⟨?_, ?_, ?_, ?_, ?_, ?_, ?_⟩
+  refine ⟨?_, ?_, ?_, ?_, ?_, ?_, ?_, by rw [e1]; exact sortedBy_tupsert _ _ hs.srt_nodes, e2 ▸ hs.srt_svcs⟩
   rotate_right
   · intro m hm
     rw [e1] at hm
@@ -521,7 +528,8 @@ theorem noOrphan_svcInsert {s : State} (v : Svc) (hnode : (nodeFind s v.node).is
   generalize svcInsert s v = s' at hv
   simp only [catView, Prod.mk.injEq] at hv
   obtain ⟨e1, e2, e3, e4⟩ := hv
-  refine ⟨?_, ?_, ?_, ?_, ?_, ?_, fun n hn => hs.nf_node n (e1 ▸ hn)⟩
+  refine ⟨?_, ?_, ?_, ?_, ?_, ?_, fun n hn => hs.nf_node n (e1 ▸ hn), e1 ▸ hs.srt_nodes,
+    by rw [e2]; exact sortedBy_tupsert _ _ hs.srt_svcs⟩
   · intro w hw
     rw [e2] at hw
     rw [nodeFind_congr e1]
